@@ -140,6 +140,7 @@ def run(vc):
 
     from contracts import C18_extgrid
     C18_extgrid.run(vc)
+    C18_extgrid.run_sgen(vc)
 
     if not hasattr(vc, "native_standins"):
         vc.native_standins = []
@@ -155,6 +156,9 @@ def classify(ob, model):
 
 
 def replay(ob, model, finding=None):
+    if ob.meta.get("part") == "sgen-sc":
+        return {"script": f"# replay of {ob.id}\nfrom replaylib.shortcircuit import main_sgen\nmain_sgen()\n",
+                "description": "calc_sc with an asynchronous / doubly-fed sgen at the bus of a network feeder: ikss against the feeder alone plus the sgen"}
     if ob.meta.get("part", "").startswith("ext_grid-sc"):
         return {"script": f"# replay of {ob.id}\nfrom replaylib.shortcircuit import main_feeders\nmain_feeders()\n",
                 "description": "calc_sc with two network feeders on one node (same bus / fused buses), cases max and min, inverse_y True / False: "
